@@ -73,7 +73,35 @@ for _id, _q, _t in (('c02_collapse_a', (0, 1), (0, 1)), ('c02_collapse_b', (1, 2
   'domain': 'every multiset of 3 overloads, each absent or accepting a contiguous range of argument counts in 0..AMAX (enumerated by concrete loops; map_sets built as write_function_for_name does); first overload option in [OPT_FROM, OPT_TO)',
   'oracle': 'at least one arity kept, largest arity kept, returned minimum within the arities; every argument count selects at most one overload set; an overload that accepted n arguments is in the set consulted for n; no overload invented; termination',
   'bounds': _b})
+# ---- overload order on real parameter types (c02_typesort.cxx) ----
+_P = 'src/cppparser/'
+_TS_TUS = _IMN + ['src/interrogate/typeManager.cxx'] + [_P + x for x in (
+    'cppSimpleType.cxx', 'cppConstType.cxx', 'cppPointerType.cxx', 'cppReferenceType.cxx', 'cppTypedefType.cxx', 'cppEnumType.cxx',
+    'cppStructType.cxx', 'cppExtensionType.cxx', 'cppScope.cxx', 'cppIdentifier.cxx', 'cppNameComponent.cxx', 'cppType.cxx',
+    'cppDeclaration.cxx', 'cppAttributeList.cxx', 'cppFile.cxx')] + ['src/dtoolutil/filename.cxx']
+_TS_CUT = ['_ZN11TypeManager12resolve_typeEP7CPPTypeP8CPPScope', '_ZN9CPPParser10parse_typeERKNSt7__cxx1112basic_stringIcSt11char_traitsIcESaIcEEE',
+           '_ZNK7CPPType14get_local_nameB5cxx11EP8CPPScope']
+_TS_SKIP = [x.split('/')[-1] for x in _TS_TUS]
+_TS_UNIVERSE = ('25 real type objects: bool, const bool, typedef of bool, int, const int, unsigned, long, short, long long, unsigned long long, '
+                'unscoped enum, enum class, double, const double, float, char, const char *, string class by value and by const reference, '
+                'Cls *, const Cls &, Cls by value, Der * (Der derives from Cls), nullptr_t, int *')
+_TS_ORACLE = ('independent of the ranks: per type the Python argument categories its generated extraction accepts (A) and the categories it is '
+              'the C++ target of (H); whenever a category of H(a) is accepted by b only by conversion (bool: everything; double/float: int; '
+              'const char *: None) or H(a) is a strict non-empty subset of H(b) (derived before base), a must be tried before b; in '
+              'particular a bool parameter comes after every other type')
 HARNESSES += [
+ {'id': 'c02_type_rank', 'property': 'C02', 'src': 'c02_typesort.cxx', 'entry': 'harness_c02_type_rank', 'tus': _TS_TUS,
+  'cut': _TS_CUT, 'skip_ctors': _TS_SKIP, 'cbmc_flags': _FS,
+  'desc': 'get_type_sort through the real TypeManager predicates ranks every parameter type consistently with what its Python-side extraction accepts',
+  'domain': _TS_UNIVERSE + ' (classified by a concrete loop); the PAIR of types compared is symbolic',
+  'oracle': _TS_ORACLE + '; bool variants rank alike',
+  'bounds': {'quick': {'unwind': 30, 'cap': 300}}},
+ {'id': 'c02_dispatch_pairs', 'property': 'C02', 'src': 'c02_typesort.cxx', 'entry': 'harness_c02_dispatch_order', 'tus': _TS_TUS,
+  'cut': _TS_CUT, 'skip_ctors': _TS_SKIP, 'cbmc_flags': _FS,
+  'desc': 'order in which an overload set of two one-parameter overloads is tried: real RemapCompareLess + std::sort on real parameter types',
+  'domain': _TS_UNIVERSE + '; every ordered pair (both input orders reach std::sort; concrete loops), const-ness of the methods symbolic',
+  'oracle': _TS_ORACLE,
+  'bounds': {'quick': {'defs': {'NOV': 2, 'NPAR': 1}, 'unwind': 30, 'cap': 300}}},
 ]
 
 PROPERTY_INFO = {'C02': {'level': 'model_checking',
